@@ -39,7 +39,9 @@ func verifImplicitCtx(lit antlr.ParserRuleContext) *gen.ImplicitConditionContext
 }
 
 // verifLexSTRING is the STRING lexer rule of antlr/ContactQL.g4,
-//     STRING: '"' (~["] | '\\"')* '"';
+//
+//	STRING: '"' (~["] | '\\"')* '"';
+//
 // as a longest-match recogniser (length of the longest matching prefix or -1).
 // Validated against the generated lexer by the native self-test.
 func verifLexSTRING(s string) int {
